@@ -23,6 +23,10 @@ class Cov(np.ndarray):
             frame = values.frame
             values = values.base
 
+        if isinstance(frame, str) and frame not in ("TNW", "QSW"):
+            # same convention as the frame setter: regular frames are Frame objects
+            frame = get_frame(frame)
+
         buf = np.array(values)
 
         if buf.ndim != 2 or buf.shape[0] != buf.shape[1] or buf.shape[0] != 6:
